@@ -41,11 +41,27 @@ structure Curve where
   r : Path                 -- exact coordinates
   f : Array FP             -- the same vertices as floats
 
+/-- half-width of the band around `tol` inside which the exact comparison is consulted -/
+def bandEps : Rat := (1 : Rat) / 1000000
+
+/-- the error budget of `ProofsTie.C13_neartie_band_sound` for one distance test: the square of the
+float distance is within `(ε/2)·d² + (ε/2)·tol²` of the exact squared distance -/
+def inBudget (tolR : Rat) (df : Float) (d2 : Rat) : Bool :=
+  match bitsToRat df.toBits with
+  | some q =>
+    let e := q * q - d2
+    let ae := if e < 0 then -e else e
+    decide (ae ≤ bandEps / 2 * d2 + bandEps / 2 * (tolR * tolR))
+  | none => false
+
 /-- Tie test for one distance comparison of the model: `(tie, far)`.  The float replica decides; the
-exact comparison is evaluated only when the float distance is within 1e-6·tol of `tol` (float
-error on these inputs is many orders below that, so elsewhere float and exact agree — and if they
-did not, the exact model run below would differ from the implementation and be reported). -/
-def isTie (tolR : Rat) (tolF : Float) (cv : Curve) (k i j : Nat) : Bool × Bool :=
+exact comparison is evaluated when the float distance is within 1e-6·tol of `tol`.  Outside that
+band float and exact agree PROVIDED the rounding error of the squared distance is within the
+budget of `C13_neartie_band_sound`; for curves of up to 64 vertices (`chk`) the budget is measured
+for every test, and a test outside it makes the case a near-tie as well.  (For longer curves the
+budget is not measured; a disagreement there shows up as a difference between the exact model run
+and the implementation and is reported.) -/
+def isTie (chk : Bool) (tolR : Rat) (tolF : Float) (cv : Curve) (k i j : Nat) : Bool × Bool :=
   let df := fdist (cv.f[k]!) (cv.f[i]!) (cv.f[j]!)
   let fl := decide (df > tolF)
   let close := Float.abs (df - tolF) ≤ 1e-6 * Float.abs tolF
@@ -58,17 +74,21 @@ def isTie (tolR : Rat) (tolF : Float) (cv : Curve) (k i j : Nat) : Bool × Bool 
       let gap := if d2 ≥ t2 then d2 - t2 else t2 - d2
       (exact != fl || (decide (gap ≠ 0) && decide (gap ≤ slack * t2)), exact)
     | _, _, _ => (false, fl)
+  else if chk && tolR ≥ 0 then
+    match cv.r[k]?, cv.r[i]?, cv.r[j]? with
+    | some pk, some pi, some pj => (!(inBudget tolR df (distSq pk pi pj)), fl)
+    | _, _, _ => (false, fl)
   else (false, fl)
 
 /-- ties among the distance tests of one `scan` -/
-def scanTies (tolR : Rat) (tolF : Float) (cv : Curve) (i j : Nat) : Nat → Nat → Bool
+def scanTies (chk : Bool) (tolR : Rat) (tolF : Float) (cv : Curve) (i j : Nat) : Nat → Nat → Bool
   | 0, _ => false
   | d + 1, k =>
     if j = cv.r.length then false
     else
-      let (tie, isFar) := isTie tolR tolF cv k i j
+      let (tie, isFar) := isTie chk tolR tolF cv k i j
       if tie then true
-      else if isFar then false else scanTies tolR tolF cv i j d (k + 1)
+      else if isFar then false else scanTies chk tolR tolF cv i j d (k + 1)
 
 structure Walk where
   tie : Bool := false
@@ -81,7 +101,7 @@ def walk (tolR : Rat) (tolF : Float) (cv : Curve) (others : List Path) : Nat →
   | 0, _, w => w
   | f + 1, s, w =>
     if s.j ≤ cv.r.length then
-      let w := if scanTies tolR tolF cv s.i s.j (s.j - (s.i + 1)) (s.i + 1) then { w with tie := true } else w
+      let w := if scanTies (cv.r.length ≤ 64) tolR tolF cv s.i s.j (s.j - (s.i + 1)) (s.i + 1) then { w with tie := true } else w
       match jBody cv.r others tolR s with
       | .ok s' =>
         let w := if s'.out.length > s.out.length ∧ s'.j < s.j + 1 then { w with backoffs := w.backoffs + 1 } else w
